@@ -24,10 +24,12 @@ type Cfg struct {
 	Port   string `json:"port"`   // open | closed | nosack
 	Silent int    `json:"silent"` // index (1-based) of a router that generates no ICMP, 0 = none
 	First  int    `json:"first_ttl"`
-	Concur int    `json:"concurrent"` // invocations at once (same topology)
+	Concur int    `json:"concurrent"`        // invocations at once (same topology)
 	Max    int    `json:"max_ttl,omitempty"` // 0 = 8
 	E2e    int    `json:"e2e"`
 	V6     bool   `json:"ipv6"`
+	// History k > 0: the run happens in a process whose earlier runs have used up packet identifiers; its own range starts k below the 16-bit wrap
+	History int `json:"id_history,omitempty"`
 }
 
 func (c Cfg) class() string {
@@ -37,6 +39,9 @@ func (c Cfg) class() string {
 	}
 	if c.Max > 0 {
 		fam += fmt.Sprintf("/max-ttl-%d", c.Max)
+	}
+	if c.History > 0 {
+		fam += fmt.Sprintf("/packet-ids-%d-before-wrap", c.History)
 	}
 	return fmt.Sprintf("len%d/%s-%s/port-%s/silent-%d/first-%d/x%d%s", c.Len, c.Proto, c.Method, c.Port, c.Silent, c.First, c.Concur, fam)
 }
@@ -72,6 +77,10 @@ func configs(tier string) []Cfg {
 				out = append(out, Cfg{Len: l, Proto: v.p, Method: v.m, Port: "open", First: 2, Concur: 1})
 				// the last TTL is exactly the destination's distance: the probe with TTL = max TTL is the one that counts
 				out = append(out, Cfg{Len: l, Proto: v.p, Method: v.m, Port: "open", First: 1, Concur: 1, Max: l + 1})
+				if v.p == "tcp" && v.m != "sack" && l == 2 {
+					// not the first run of its process: the packet-identifier range of the SYN probes crosses the 16-bit wrap
+					out = append(out, Cfg{Len: l, Proto: v.p, Method: v.m, Port: map[string]string{"syn": "open", "prefer_sack": "nosack"}[v.m], First: 1, Concur: 1, History: 2})
+				}
 				// the very first probe already reaches the destination
 				out = append(out, Cfg{Len: l, Proto: v.p, Method: v.m, Port: "open", First: l + 1, Concur: 1})
 			}
@@ -264,8 +273,8 @@ func invoke(l *lab, c Cfg, proto, method string) (*doc, string, error) {
 	}
 	src := l.ns[0]
 	var args []string
-	if c.First > 1 {
-		args = []string{"netns", "exec", src, os.Getenv("VERIF_C13_DRV"), "-proto", proto, "-method", method, "-port", port, "-min", fmt.Sprint(c.First), "-max", maxOf(c), "-timeout", "1000", "-q", "1", "-e2e", fmt.Sprint(c.E2e), dstAddr}
+	if c.First > 1 || c.History > 0 {
+		args = []string{"netns", "exec", src, os.Getenv("VERIF_C13_DRV"), "-proto", proto, "-method", method, "-port", port, "-min", fmt.Sprint(c.First), "-max", maxOf(c), "-timeout", "1000", "-q", "1", "-e2e", fmt.Sprint(c.E2e), "-history", fmt.Sprint(c.History), dstAddr}
 	} else {
 		args = []string{"netns", "exec", src, os.Getenv("VERIF_C13_CLI"), "-P", proto, "-p", port, "-q", "1", "-Q", fmt.Sprint(c.E2e), "-m", maxOf(c), "--timeout", "1000"}
 		if proto == "tcp" {
